@@ -458,6 +458,19 @@ func genFsSites(r *repo) string {
 		ok := fd != nil && strings.Contains(strings.Join(strings.Fields(r.src(fd)), " "), strings.Join(strings.Fields(cf.want), " "))
 		fmt.Fprintf(&b, "def %s : Bool := %v\n", cf.name, ok)
 	}
+	// the two helpers that implement "data in progress lives in a temporary, the final name changes by rename"
+	for _, hf := range []struct{ file, fn, name string }{
+		{"internal/receiver/receiverrenameio.go", "newPendingFile", "newPendingFileBody"},
+		{"internal/receiver/generatorsymlink.go", "symlink", "symlinkBody"},
+	} {
+		body := "missing"
+		if fd := r.funcDecl(hf.file, hf.fn); fd != nil {
+			body = strings.Join(strings.Fields(r.src(fd.Body)), " ")
+		} else {
+			r.fail("FsSites: %s not found in %s", hf.fn, hf.file)
+		}
+		fmt.Fprintf(&b, "def %s : String := %s\n", hf.name, strconv.Quote(body))
+	}
 	var destEv []string
 	if fd := r.funcDecl("rsyncd/rsyncd.go", "handleConnReceiver"); fd != nil {
 		ast.Inspect(fd, func(n ast.Node) bool {
